@@ -112,3 +112,25 @@ package syncx
 //@   requires lg != nil && lg.m != nil
 //@   ensures [exclusive-section] calls(fn) == 1 && calls(on("unlock", lg.mu)) == 2 && !has(lg.m, key) && calls("wg.Done") == 1 && result0 == ret(fn, 0) && result1 == ret(fn, 1)
 //@   panic-ensures [released-on-panic] !has(lg.m, key) && calls("wg.Done") == 1
+
+// LockedCalls.Do: while another call holds the key, the caller releases the lock, waits for that call and decides
+// AGAIN under the lock (the map may have changed meanwhile); it runs fn only having seen, under the lock, that no
+// call holds the key - and still holding that lock when makeCall installs its own entry.
+//@ func (*lockedGroup).Do
+//@   prop C18
+//@   opaque makeCall
+//@   guards lg.mu: mapof(lg.m)
+//@   requires lg != nil && lg.m != nil
+//@   loop 1 iteration-ensures [busy-key-waited-for-outside-the-lock] calls(on("lock", lg.mu)) == 1 && at(on("lock", lg.mu), has(lg.m, key)) && calls(on("unlock", lg.mu)) == 1 && calls("wg.Wait") == 1 && before(on("unlock", lg.mu), "wg.Wait") && calls(makeCall) == 0
+//@   ensures [runs-only-when-key-free-under-lock] calls(lg.makeCall, key, fn) == 1 && calls(on("lock", lg.mu)) == 1 && !at(on("lock", lg.mu), has(lg.m, key)) && calls(on("unlock", lg.mu)) == 0 && before(on("lock", lg.mu), makeCall) && result0 == ret(makeCall, 0) && result1 == ret(makeCall, 1)
+// DoEx: as Do, additionally telling whether this caller was the one that executed.
+//@ func (*flightGroup).DoEx
+//@   prop C18, C06, C17
+//@   opaque createCall, makeCall
+//@   requires g != nil
+//@   ensures [shared] ret(createCall, 1) ==> calls(makeCall) == 0 && !fresh && val == ret(createCall, 0).val && err == ret(createCall, 0).err
+//@   ensures [fresh] !ret(createCall, 1) ==> calls(g.makeCall, ret(createCall, 0), key, fn) == 1 && fresh && val == ret(createCall, 0).val && err == ret(createCall, 0).err
+// Limit.Borrow takes exactly one slot (blocking while none is free).
+//@ func (Limit).Borrow
+//@   prop C18
+//@   ensures [one-slot] calls(on("send", l.pool)) == 1
